@@ -98,6 +98,20 @@ def case_const(ctx, case):
     s = C.Struct("sig" / d, "x" / C.Byte)
     if outcome(lambda: s.build(dict(x=1))) != ("ok", enc + b"\x01"):
         ctx.violation("const-in-struct-build", "Struct(sig/Const, x).build without sig did not emit the constant", case)
+    # the constant a named Const contributes to the enclosing scope while building is the constant (not what was supplied for it):
+    # later members that refer to it take the same branch / pass the same check as on parse
+    for how, s2, v2 in (("check", C.Struct("sig" / d, "x" / C.Byte, C.Check(C.this.sig == value)), dict(x=7)),
+                        ("check-none", C.Struct("sig" / d, "x" / C.Byte, C.Check(C.this.sig == value)), dict(sig=None, x=7)),
+                        ("switch", C.Struct("sig" / d, "x" / C.Switch(C.this.sig, {value: C.Byte}, default=C.Error)), dict(x=7)),
+                        ("sequence", C.Sequence("sig" / d, C.Byte, C.Check(C.this.sig == value)), [None, 7, None]),
+                        ("focused", C.FocusedSeq("x", "sig" / d, "x" / C.Byte, C.Check(C.this.sig == value)), 7)):
+        ctx.ev()
+        if isinstance(value, (bytes, int, str)) and not (isinstance(value, float)):
+            rb = outcome(lambda: s2.build(v2))
+            rp = outcome(lambda: s2.parse(enc + b"\x07"))
+            if rp[0] == "ok" and rb != ("ok", enc + b"\x07"):
+                ctx.violation("const-not-in-build-context:" + how, "parse(%s) succeeds but building the same record without the constant -> %r" % ((enc + b"\x07").hex(), rb), dict(case, how=how))
+                break
     ctx.count("const_instances")
     if acc and rej and brej:
         ctx.nontrivial("const", case)
@@ -114,14 +128,31 @@ PREDS = {
 }
 
 
+def collection_of(case, params):
+    """the collection object handed to OneOf/NoneOf: the predicate is Python's `in` on exactly this object (a bytes literal tests
+    containment of a byte value or of a sub-string, a range tests arithmetic membership, a dict its keys)"""
+    coll = case.get("coll")
+    if coll == "set":
+        return set(params) if case["pred"] == "oneof" else frozenset(params)
+    if coll == "tuple":
+        return tuple(params)
+    if coll == "literal":              # a bytes / str literal
+        return params[0]
+    if coll == "range":
+        return range(*params)
+    if coll == "dict":
+        return {k: None for k in params}
+    return params
+
+
 def mk_validator(case):
     import construct as C
     sub = mk(case["sub"])
     p, params = case["pred"], [untag(x) if isinstance(x, dict) else x for x in case["params"]]
     if p == "oneof":
-        return C.OneOf(sub, params if case.get("coll") != "set" else set(params)), "obj"
+        return C.OneOf(sub, collection_of(case, params)), "obj"
     if p == "noneof":
-        return C.NoneOf(sub, params if case.get("coll") != "set" else frozenset(params)), "obj"
+        return C.NoneOf(sub, collection_of(case, params)), "obj"
     if p == "even":
         return C.ExprValidator(sub, C.obj_ & 1 == 0), "obj"
     if p == "lt":
@@ -140,7 +171,7 @@ def case_validator(ctx, case):
     d, form = mk_validator(case)
     sub = mk(case["sub"])
     params = [untag(x) if isinstance(x, dict) else x for x in case["params"]]
-    pred = PREDS[case["pred"]](params)
+    pred = PREDS[case["pred"]](collection_of(case, params) if case["pred"] in ("oneof", "noneof") else params)
     inputs, full = domain_inputs(case["sub"], ctx)
     pa = pr = ba = br = 0
     errname = "ValidationError" if form == "obj" else "CheckError"
@@ -598,6 +629,16 @@ def gen_cases(ctx):
         if sub[0] == "Bytes":
             cases.append({"kind": "validator", "sub": sub, "pred": "oneof", "params": [tag(b"a" * sub[1]), tag(b"\x00" * sub[1])], "coll": "list"})
             cases.append({"kind": "validator", "sub": sub, "pred": "noneof", "params": [tag(b"\x00" * sub[1])], "coll": "list"})
+    # collections that are not lists: literals (containment of a byte value / of a sub-string), ranges, tuples, dict keys
+    for pred in ("oneof", "noneof"):
+        cases.append({"kind": "validator", "sub": ["Bytes", 1], "pred": pred, "params": [tag(b"+-*/")], "coll": "literal"})
+        cases.append({"kind": "validator", "sub": ["Bytes", 1], "pred": pred, "params": [tag(b"\x00\xff")], "coll": "literal"})
+        cases.append({"kind": "validator", "sub": ["Bytes", 2], "pred": pred, "params": [tag(b"\x00\x01\x02\x00")], "coll": "literal"})
+        cases.append({"kind": "validator", "sub": ["name", "Byte"], "pred": pred, "params": [tag(b"+-*/\x00")], "coll": "literal"})
+        cases.append({"kind": "validator", "sub": ["name", "Byte"], "pred": pred, "params": [3, 200, 7], "coll": "range"})
+        cases.append({"kind": "validator", "sub": ["name", "Int8sb"], "pred": pred, "params": [-5, 6], "coll": "range"})
+        cases.append({"kind": "validator", "sub": ["name", "Byte"], "pred": pred, "params": [1, 2, 250], "coll": "tuple"})
+        cases.append({"kind": "validator", "sub": ["name", "Byte"], "pred": pred, "params": [0, 9, 255], "coll": "dict"})
     for v in (b"\x00", b"Z", b"\xff"):
         cases.append({"kind": "const", "sub": None, "value": tag(v)})
     big = [0, 1, 2, 127, 128, 255, 256, 2 ** 32, 2 ** 64 - 1, 2 ** 64, 2 ** 100, 2 ** 127, 2 ** 128 - 1, -1, -2 ** 70]
